@@ -779,7 +779,11 @@ func (e *SpecEnv) call(x *spec.Call) Val {
 			if err != nil {
 				return e.fail(x, "matches: %v", err)
 			}
-			return Val{T: B, Term: fmt.Sprintf("(str.in_re %s %s)", argT(0), re)}
+			mt := fmt.Sprintf("(str.in_re %s %s)", argT(0), re)
+			if id, ok := x.Args[1].(*spec.Ident); ok && e.pkg != nil {
+				vc.RegexUses = append(vc.RegexUses, RegexUse{Var: id.Name, Pkg: e.pkg.Path(), PkgName: e.pkg.Name(), Arg: argT(0), Match: mt})
+			}
+			return Val{T: B, Term: mt}
 		}
 	case "isStr", "isInt", "isBool", "isList", "isDict", "isPrimKind", "isNilAny":
 		if need(1) {
